@@ -22,7 +22,7 @@ Proof.
   destruct (read_prop_group v m d) as [Hev [Hhm [Hhd [Hem Hed]]]]. cbn zeta in *.
   assert (Hhv : ahas path_VALUES (prop_members v m d) = true) by reflexivity.
   rewrite Hhv. cbn [guard rbind]. rewrite Hev. cbn [rbind].
-  unfold create_props_metadata in Hpm. unfold encode_prop in He. destruct p as [vals miss].
+  apply cpm_core_of_ok in Hpm; unfold cpm_core in Hpm. unfold encode_prop in He. destruct p as [vals miss].
   unfold upcast_prop in *. cbn [p_vals p_missing] in *.
   assert (Hmiss_ok : forall x, m = Some x -> a_dt x = DBool /\ a_shape x = [n]).
   { intros x Hx. destruct vals as [a|elems]; cbn [p_vals] in He.
